@@ -8,6 +8,7 @@ import (
 
 	jd "github.com/josephburnett/jd/v2"
 	verifseam "github.com/josephburnett/jd/v2/verif/seam"
+	"github.com/josephburnett/jd/v2/verif/simos"
 )
 
 // ---------------------------------------------------------------- case
@@ -287,6 +288,7 @@ func (w *world) operandPrint() string {
 func checkC15(c C15Case) (*Violation, []string, *caseInfo) {
 	info := &caseInfo{}
 	uninstallOrder()
+	simos.ResetGlobals() // a history is one process lifetime: start it with fresh package state
 	a, errA := readDoc(c.A, c.YAML)
 	b, errB := readDoc(c.B, c.YAML)
 	if errA != nil || errB != nil || a == nil || b == nil {
@@ -349,6 +351,12 @@ func checkC15(c C15Case) (*Violation, []string, *caseInfo) {
 	}
 	_ = shape
 	shapeClass := fmt.Sprintf("multihunk=%v,multivalue=%v,void=%v", multiHunk, multiValue, voidAdd)
+	if trace15 != nil {
+		ab := strSeed(w.nodes[0].print + w.nodes[1].print)
+		for _, s := range w.diffs {
+			*trace15 = append(*trace15, fmt.Sprintf("construct - %s operands=%x output=%s", s.name, ab, fingerprint(s.live)))
+		}
+	}
 	// invariant 2 must hold already after construction (Diff is in the list)
 	if v := w.checkUnchanged("world construction (Diff under each option set)"); v != nil {
 		return v, w.log, info
